@@ -2,8 +2,18 @@ module verifharness
 
 go 1.19
 
-require storj.io/drpc v0.0.0
+require (
+	drpcv0017 v0.0.0
+	github.com/anishathalye/porcupine v1.3.0
+	google.golang.org/protobuf v1.27.1
+	storj.io/drpc v0.0.0
+)
 
-require github.com/zeebo/errs v1.2.2 // indirect
+require (
+	github.com/gogo/protobuf v1.3.2 // indirect
+	github.com/zeebo/errs v1.2.2 // indirect
+)
 
 replace storj.io/drpc => /repo
+
+replace drpcv0017 => ../third_party/drpc_v0017
